@@ -109,7 +109,7 @@ static int32_t traverse_schema_recursive(
 
     /* Group node - recursively process children */
     int32_t next_idx = element_idx + 1;
-    for (int32_t child = 0; child < elem->num_children; child++) {
+    for (int32_t child = 0; child < elem->num_children && next_idx < ctx->num_elements; child++) {
         next_idx = traverse_schema_recursive(ctx, next_idx, this_def, this_rep);
     }
 
@@ -161,7 +161,7 @@ static void compute_levels(
      * We process its children starting at index 1. */
     const parquet_schema_element_t* root = &elements[0];
     int32_t next_idx = 1;
-    for (int32_t child = 0; child < root->num_children; child++) {
+    for (int32_t child = 0; child < root->num_children && next_idx < num_elements; child++) {
         next_idx = traverse_schema_recursive(&ctx, next_idx, 0, 0);
     }
 }
@@ -535,6 +535,16 @@ carquet_column_reader_t* carquet_reader_get_column(
     /* Get schema info */
     int32_t schema_idx = reader->schema->leaf_indices[column_index];
     const parquet_schema_element_t* schema_elem = &reader->schema->elements[schema_idx];
+
+    /* Values are decoded with the chunk's type into buffers the caller sized
+     * from the schema: the two must agree */
+    if (!schema_elem->has_type || col_reader->col_meta->type != schema_elem->type ||
+        col_reader->col_meta->num_values < 0) {
+        free(col_reader);
+        CARQUET_SET_ERROR(error, CARQUET_ERROR_INVALID_METADATA,
+            "Column chunk metadata does not match the schema");
+        return NULL;
+    }
 
     col_reader->max_def_level = reader->schema->max_def_levels[column_index];
     col_reader->max_rep_level = reader->schema->max_rep_levels[column_index];
